@@ -6,7 +6,7 @@ re-runs the harness once per path; the *trail* of decisions taken so far is repl
 the first new decision asks the solver which sides are feasible.  The solver's assertion stack always mirrors
 the trail, so queries are incremental along the depth-first order.
 """
-import time
+import os, subprocess, time
 import z3
 
 class Infeasible(Exception):
@@ -39,6 +39,33 @@ class Ctx:
         self.assert_queries = 0
         self.decisions_on_path = 0
         self.nfork = 0
+        # second-solver cross-check of z3's UNSAT answers (the answers that cannot be validated natively):
+        # every VERIF_XCHECK-th `unsat` at a decision is re-decided by cvc5 on the SMT-LIB dump of the same query
+        self.xcheck_every = int(os.environ.get('VERIF_XCHECK', '0') or 0)
+        self.n_unsat = 0; self.xc_agree = 0; self.xc_unknown = 0
+
+    def _xcheck_unsat(self, other):
+        self.n_unsat += 1
+        if not self.xcheck_every or self.n_unsat % self.xcheck_every: return
+        s2 = z3.Solver(); s2.add(self.solver.assertions()); s2.add(other)
+        text = '(set-logic ALL)\n' + s2.to_smt2()
+        for op in ('bvudiv', 'bvurem', 'bvsdiv', 'bvsrem', 'bvsmod'): text = text.replace(op + '_i', op)     # z3-internal names of the same operators
+        try:
+            r = subprocess.run(['cvc5', '--lang', 'smt2', '--tlimit=15000'], input=text.encode(), stdout=subprocess.PIPE, stderr=subprocess.PIPE, timeout=30)
+            out = r.stdout.decode('utf-8', 'replace')
+        except (subprocess.TimeoutExpired, OSError):
+            out = 'unknown'
+        first = out.strip().split('\n')[0] if out.strip() else 'unknown'
+        if '(error' in out: first = 'unknown'
+        if first == 'unsat': self.xc_agree += 1
+        elif first == 'sat': raise Inconclusive('solver disagreement: z3 says unsat, cvc5 says sat')
+        else:
+            self.xc_unknown += 1
+            if self.xc_unknown == 1:
+                try:
+                    d = os.path.join(os.path.dirname(os.path.dirname(os.path.abspath(__file__))), 'scratch'); os.makedirs(d, exist_ok=True)
+                    open(os.path.join(d, 'xcheck-unknown-%d.txt' % os.getpid()), 'w').write(out[:2000] + '\n----\n' + text[-3000:])
+                except OSError: pass
 
     # ---- variables (names are deterministic, so re-execution rebuilds identical terms) -------
     def bv(self, name, bits):
@@ -116,6 +143,7 @@ class Ctx:
             self.trail.append(Entry(cond, v, True, am, True))
             self.nfork += 1
         else:
+            self._xcheck_unsat(other)
             self.trail.append(Entry(cond, v, False, None, False))
         self.pos = pos + 1
         return v
